@@ -307,6 +307,12 @@ func (r *yieldRewriter) rewriteStmt(
 		// emitted unchanged, so a yield inside (go Yield(), range over ptr of array /
 		// type param which rewriteRanges left alone, ...) would become a no-op call
 		r.assert(r.mustNoYield(stmt), stmt, "yield not supported in %T", stmt)
+		if rg, ok := stmt.(*ast.RangeStmt); ok {
+			// range loops which rewriteRanges left alone are kept native, but
+			// the body still has to be visited for rejecting unsupported stmts,
+			// e.g. defer would run when the enclosing thunk returns
+			r.rewriteBlockStmt(rg.Body, kindFor)
+		}
 		children.push(stmt, kindTrival)
 		return children
 	}
